@@ -120,14 +120,14 @@ fn argmax_range(v: &[f32]) -> (usize, usize) {
 /// Per-sample accuracy as the property states it; (lo, hi) to allow for arg-max ties.
 fn sample_accuracy(softmax: bool, p: &[f32], t: &[f32], tol: f32) -> (f64, f64) {
     if softmax {
-        let (pf, pl) = argmax_range(p);
-        let (tf, tl) = argmax_range(t);
-        if pf == pl && tf == tl {
-            let a = if pf == tf { 1.0 } else { 0.0 };
-            (a, a)
-        } else {
-            (0.0, 1.0)
+        // "arg-max agreement", with arg-max as the library's public `Tensor::argmax` defines
+        // it (which also fixes what happens on exact ties: whatever argmax does, on both
+        // sides). Non-finite values are excluded before this point.
+        if p.iter().chain(t.iter()).any(|v| v.is_nan()) {
+            return (0.0, 1.0);
         }
+        let a = if tensor::Tensor::single(p.to_vec()).argmax() == tensor::Tensor::single(t.to_vec()).argmax() { 1.0 } else { 0.0 };
+        (a, a)
     } else {
         let hits = p.iter().zip(t.iter()).filter(|(p, t)| (**t - **p).abs() < tol).count();
         let a = hits as f64 / t.len() as f64;
@@ -148,7 +148,7 @@ impl Property for C12 {
 
     fn assumptions(&self) -> Vec<String> {
         vec![
-            "the per-sample loss is the library's objective::Function::loss on the library's predict (C12 decides the aggregation, ordering and accuracy rule, not the objective formulas)".into(),
+            "the per-sample loss is the library's objective::Function::loss on the library's predict (C12 decides the aggregation, ordering and accuracy rule, not the objective formulas); arg-max is the library's public Tensor::argmax applied to target and prediction (so tie-breaking is whatever argmax does, consistently)".into(),
             "the mean is compared bitwise first and otherwise within 1e-4 relative (a correct re-association is not an alarm)".into(),
             "validate with zero samples is outside the property (mean undefined) and not generated".into(),
             "E1 scheduling limits as for C05".into(),
